@@ -110,7 +110,12 @@ fn tree(d: &mut Dec, cb: u32, depth: u32) -> Vec<Slot> {
                 name,
                 attr: 0x10,
                 children: tree(d, cb, depth + 1),
-                extra: d.u8() % 3,
+                extra: match d.u8() % 8 {
+                    // 0x80 | k: the k extra clusters are filled with entries as well (see mkfs::dir_geometry)
+                    k @ 0..=2 => k,
+                    k @ 3..=5 => 0x80 | (k - 2),
+                    _ => 0,
+                },
                 pad_free: match d.u8() % 5 {
                     0 => Some(0),
                     1 => Some(1),
@@ -179,7 +184,8 @@ fn vol(d: &mut Dec) -> VolSpec {
 
 fn name_sel(d: &mut Dec) -> NameSel {
     match d.u8() % 8 {
-        0 | 1 | 2 => NameSel::Existing(d.u16()),
+        0 | 1 => NameSel::Existing(d.u16()),
+        2 => NameSel::ExistingDir(d.u16()),
         3 | 4 => NameSel::Pool(d.u8()),
         5 => NameSel::Deleted(d.u16()),
         6 => NameSel::Invalid(d.u8()),
